@@ -9,8 +9,7 @@ C05 / C06 — model of data-class parsing: `BaseParser.parse_data`, `data_first_
 (schema.py:266-304).
 
 Hand-written, branch for branch, of the code *after* the fix patches
-(fixes/C06-strategy-equivalence.patch, fixes/C05-mode-string-flags.patch,
-fixes/C05-dependency-name.patch); the behaviour before the patches is kept in `Legacy` (flags)
+(fixes/C06-1..5-*.patch on top of utype f722b13, which already has the C05 fixes and the repairs of C04/C08/C13); the behaviour before the patches is kept in `Legacy` (flags)
 for the negation witnesses in Props.  Tied to the code by the correspondence run (harness/c05.py).
 
 Keys (attribute names, aliases, input keys) and mode letters are natural numbers; values are an
@@ -385,44 +384,51 @@ def paramsCheck {V : Type} (o : Opts V) (n : Nat) : List Err :=
   (match o.maxParams with | some m => if m ≠ 0 ∧ n > m then [Err.paramsExceed] else [] | none => [])
   ++ (match o.minParams with | some m => if m ≠ 0 ∧ n < m then [Err.paramsLack] else [] | none => [])
 
+/-- `BaseParser._alias_conflict(a, b)`: `a != b`; a comparison that raises counts as different.  Values of the
+modelled domain compare without raising, so this is structural inequality. -/
+abbrev aliasConflict {V : Type} (a b : V) : Prop := a ≠ b
+
 /-! ### data-first strategy (base.py:423-523, after the fix) -/
 
 def idxOf (a : Key) : List Key → Nat
   | [] => 0
   | x :: xs => if x = a then 0 else idxOf a xs + 1
 
+/-- an entry of `inputs`: `(field, value, rank)` for a field that was given, `(None, value, 0)` for an
+additional key -/
 structure Input (V : Type) where
-  field : PField V
+  field : Option (PField V)
   value : V
   rank : Nat
 
 structure DfScan (V : Type) where
-  inputs : List (Key × Input V) := []       -- name → (field, value, rank)
+  inputs : List (Key × Input V) := []       -- name → (field, value, rank) / additional key → (None, value, 0)
   conflicts : List Key := []                -- names of the fields given two different values
-  addition : List (Key × V) := []
-  errs : List Err := []
 
-/-- one iteration of the first loop (base.py:440-463) -/
-def dfScanStep {V : Type} [DecidableEq V] (W : World V) (P : Parser V) (o : Opts V)
+/-- one iteration of the first loop.  `field.positional_only` (function parameters) is always False for the
+fields of a data class, so `not field or field.positional_only` is `not field` here. -/
+def dfScanStep {V : Type} [DecidableEq V] (W : World V) (P : Parser V)
     (s : DfScan V) (kv : Key × V) : DfScan V :=
   match getField W P kv.1 with
-  | none =>
-    let r := addStep W P o (s.addition, s.errs) kv
-    { s with addition := r.1, errs := r.2 }
+  | none => { s with inputs := dset kv.1 ⟨none, kv.2, 0⟩ s.inputs }
   | some f =>
     let rank := idxOf (if f.allAliases.contains kv.1 then kv.1 else W.lower kv.1) f.allAliases
     match dget f.name s.inputs with
     | some used =>
-      let s := if used.value ≠ kv.2 ∧ !s.conflicts.contains f.name
+      let s := if aliasConflict used.value kv.2 ∧ !s.conflicts.contains f.name
                then { s with conflicts := s.conflicts ++ [f.name] } else s
-      if rank ≥ used.rank then s else { s with inputs := dset f.name ⟨f, kv.2, rank⟩ s.inputs }
-    | none => { s with inputs := dset f.name ⟨f, kv.2, rank⟩ s.inputs }
+      if rank ≥ used.rank then s else { s with inputs := dset f.name ⟨some f, kv.2, rank⟩ s.inputs }
+    | none => { s with inputs := dset f.name ⟨some f, kv.2, rank⟩ s.inputs }
 
-/-- second loop (base.py:465-487) -/
-def dfProvideAll {V : Type} (L : Legacy) (W : World V) (o : Opts V) (conflicts : List Key)
-    (inputs : List (Key × Input V)) (st : St V) : St V :=
-  inputs.foldl (fun st ni =>
-    provide L W o ni.2.field ni.2.value (conflicts.contains ni.1 && !o.ignoreAliasConflicts) st) st
+/-- one iteration of the second loop: an additional key goes through `parse_addition`, a field through the
+shared statements -/
+def dfItemStep {V : Type} (L : Legacy) (W : World V) (P : Parser V) (o : Opts V) (conflicts : List Key)
+    (acc : St V × List (Key × V)) (ni : Key × Input V) : St V × List (Key × V) :=
+  match ni.2.field with
+  | none =>
+    let r := parseAddition W P o ni.1 ni.2.value
+    ({ acc.1 with errs := acc.1.errs ++ r.2 }, match r.1 with | some x => dset ni.1 x acc.2 | none => acc.2)
+  | some f => (provide L W o f ni.2.value (conflicts.contains ni.1 && !o.ignoreAliasConflicts) acc.1, acc.2)
 
 /-- third loop (base.py:489-502) -/
 def dfAbsentAll {V : Type} (L : Legacy) (P : Parser V) (o : Opts V) (inputs : List (Key × Input V)) (st : St V) : St V :=
@@ -430,29 +436,33 @@ def dfAbsentAll {V : Type} (L : Legacy) (P : Parser V) (o : Opts V) (inputs : Li
 
 def dataFirst {V : Type} [DecidableEq V] (L : Legacy) (W : World V) (P : Parser V) (o : Opts V)
     (data : List (Key × V)) : St V :=
-  let s := data.foldl (dfScanStep W P o) {}
-  let st : St V := { errs := s.errs }
-  let st := dfProvideAll L W o s.conflicts s.inputs st
-  let st := dfAbsentAll L P o s.inputs st
+  let s := data.foldl (dfScanStep W P) {}
+  let r := s.inputs.foldl (dfItemStep L W P o s.conflicts) ({}, [])
+  let st := dfAbsentAll L P o s.inputs r.1
   let st := depsCheck P st
-  { st with result := dupdate st.result s.addition }
+  { st with result := dupdate st.result r.2 }
 
 /-! ### field-first strategy (base.py:525-640, after the fix) -/
 
 structure Merged (V : Type) where
   data : List (Key × V) := []
-  conflicts : List Key := []          -- lower-cased keys given twice with different values
+  conflicts : List Key := []          -- lookup keys given twice (in different letter case) with different values
 
-/-- the lower-casing pass (base.py:532-547) -/
+/-- `lookup_keys[k]`: the key under which the lower-casing pass files an input key -/
+def lookupKey {V : Type} (W : World V) (P : Parser V) (k : Key) : Key :=
+  if P.ciNames.contains (W.lower k) then W.lower k else k
+
+/-- one iteration of the lower-casing pass: the first value filed under a lookup key is used, a later different
+one is noted as a conflict -/
 def ffMergeStep {V : Type} [DecidableEq V] (W : World V) (P : Parser V) (m : Merged V) (kv : Key × V) : Merged V :=
-  if P.ciNames.contains (W.lower kv.1) then
-    let k := W.lower kv.1
-    match dget k m.data with
-    | some v0 =>
-      if v0 ≠ kv.2 ∧ !m.conflicts.contains k then { m with conflicts := m.conflicts ++ [k] } else m
-    | none => { m with data := dset k kv.2 m.data }
-  else { m with data := dset kv.1 kv.2 m.data }
+  let k := lookupKey W P kv.1
+  match dget k m.data with
+  | some v0 =>
+    if aliasConflict v0 kv.2 ∧ !m.conflicts.contains k then { m with conflicts := m.conflicts ++ [k] } else m
+  | none => { m with data := dset k kv.2 m.data }
 
+/-- the lower-casing pass; without case-insensitive names the input is used as it is (`origin = data`,
+`lookup_keys = {}`) -/
 def ffMerge {V : Type} [DecidableEq V] (W : World V) (P : Parser V) (data : List (Key × V)) : Merged V :=
   if P.ciNames.isEmpty then { data := data } else data.foldl (ffMergeStep W P) {}
 
@@ -483,12 +493,13 @@ def ffFieldStep {V : Type} [DecidableEq V] (L : Legacy) (W : World V) (o : Opts 
   | (none, _) => { s with st := absent L o f s.st }
   | (some v, c) => { st := provide L W o f v c s.st, used := s.used ++ f.allAliases }
 
-/-- the addition loop (base.py:631-640) -/
+/-- the addition loop: over the input in its original spelling (`origin`), skipping the keys whose lookup key
+belongs to a provided field -/
 def ffAdditions {V : Type} (W : World V) (P : Parser V) (o : Opts V) (used : List Key) (data : List (Key × V))
     (st : St V) : St V :=
   if o.addition = .ignore then st else
   let r := data.foldl (fun (acc : List (Key × V) × List Err) kv =>
-    if used.contains kv.1 then acc else addStep W P o acc kv) ([], [])
+    if used.contains (lookupKey W P kv.1) then acc else addStep W P o acc kv) ([], [])
   { st with result := dupdate st.result r.1, errs := st.errs ++ r.2 }
 
 def fieldFirst {V : Type} [DecidableEq V] (L : Legacy) (W : World V) (P : Parser V) (o : Opts V)
@@ -496,7 +507,7 @@ def fieldFirst {V : Type} [DecidableEq V] (L : Legacy) (W : World V) (P : Parser
   let m := ffMerge W P data
   let s := P.fields.foldl (ffFieldStep L W o m) {}
   let st := depsCheck P s.st
-  ffAdditions W P o s.used m.data st
+  ffAdditions W P o s.used data st
 
 /-! ### `parse_data`, `__call__`, `__init__`, `set_attributes`, `__post_init__` -/
 
@@ -585,7 +596,7 @@ def Parser.wf {V : Type} (W : World V) (P : Parser V) : Bool :=
   && P.aliasMap == aliasMapOf P.fields
   && P.ciNames == ciNamesOf P.fields
 
-/-! ### Behaviour before fixes/C06-strategy-equivalence.patch (for the negation witnesses) -/
+/-! ### Behaviour before fixes/C06-1..5-*.patch (for the negation witnesses) -/
 
 /-- data_first_parse before the fix: duplicates compared with the *parsed* stored value, last duplicate
 wins under ignore_alias_conflicts, no_input inputs forgotten, defaults skipped under ignore_required. -/
@@ -624,8 +635,7 @@ def fieldFirstLegacy {V : Type} [DecidableEq V] (W : World V) (P : Parser V) (o 
     (data : List (Key × V)) : St V :=
   let L : Legacy := {}
   let data' := if P.ciNames.isEmpty then data else
-    data.foldl (fun m kv =>
-      if P.ciNames.contains (W.lower kv.1) then dset (W.lower kv.1) kv.2 m else dset kv.1 kv.2 m) []
+    data.foldl (fun m kv => dset (lookupKey W P kv.1) kv.2 m) []
   let m : Merged V := { data := data' }
   let s := P.fields.foldl (fun (s : FfSt V) kf =>
     let f := kf.2
@@ -635,6 +645,6 @@ def fieldFirstLegacy {V : Type} [DecidableEq V] (W : World V) (P : Parser V) (o 
       let st := if c then { s.st with errs := s.st.errs ++ [.aliasConflict f.name] } else s.st
       { st := provide L W o f v false st, used := s.used ++ f.allAliases }) {}
   let st := depsCheck P s.st
-  ffAdditions W P o s.used m.data st
+  ffAdditions W P o s.used data st
 
 end Utv.C05
